@@ -1,5 +1,5 @@
-CONSTANT MaxBig = 33
-CONSTANT MaxDiv = 8
+CONSTANT MaxBig = 104
+CONSTANT MaxDiv = 12
 CONSTANT MaxPow = 4
 INIT Init
 NEXT Next
